@@ -42,6 +42,17 @@ X64 = {
     "icall": dict(b="ffd0", kind="icall", asm="callq *%rax"),
     "ud2": dict(b="0f0b", kind="halt", asm="ud2"),
     "hlt": dict(b="f4", kind="halt", asm="hlt"),
+    # symbolic memory operand FOLLOWED by an immediate: the fixup is not the
+    # last field of the encoding
+    "cmp_sym": dict(b="833d0000000005", kind="ord", sym=(2, 4),
+                    asm="cmpl $5, {t}(%rip)"),
+    "movi_sym": dict(b="c7050000000007000000", kind="ord", sym=(2, 4),
+                     asm="movl $7, {t}(%rip)"),
+    # through memory named by a symbol (GOT-style); original code only
+    "icall_sym": dict(b="ff1500000000", kind="icall", sym=(2, 4),
+                      asm="callq *{t}(%rip)", patch=False),
+    "ijmp_sym": dict(b="ff2500000000", kind="ijmp", sym=(2, 4),
+                     asm="jmpq *{t}(%rip)", patch=False),
 }
 
 IA32 = {
@@ -71,6 +82,14 @@ IA32 = {
     "icall": dict(b="ffd0", kind="icall", asm="calll *%eax"),
     "ud2": dict(b="0f0b", kind="halt", asm="ud2"),
     "hlt": dict(b="f4", kind="halt", asm="hlt"),
+    "cmp_sym": dict(b="833d0000000005", kind="ord", sym=(2, 4),
+                    asm="cmpl $5, {t}"),
+    "movi_sym": dict(b="c7050000000007000000", kind="ord", sym=(2, 4),
+                     asm="movl $7, {t}"),
+    "icall_sym": dict(b="ff1500000000", kind="icall", sym=(2, 4),
+                      asm="calll *{t}", patch=False),
+    "ijmp_sym": dict(b="ff2500000000", kind="ijmp", sym=(2, 4),
+                     asm="jmpl *{t}", patch=False),
 }
 
 
@@ -104,7 +123,7 @@ ARM64 = {
     "ud2": dict(b=_w(0xD4200000), kind="halt", asm="brk #0"),
 }
 
-INTEL = {'nop': 'nop', 'push_rax': 'push rax', 'pop_rax': 'pop rax', 'push_rbx': 'push rbx', 'pop_rbx': 'pop rbx', 'mov_rr': 'mov rbx, rax', 'xor': 'xor eax, eax', 'add': 'add rax, 1', 'lea_sym': 'lea rax, [rip + {t}]', 'mov_sym': 'mov rax, qword ptr [rip + {t}]', 'mark': 'mov eax, {imm}', 'jmp': 'jmp {t}', 'jne': 'jne {t}', 'call': 'call {t}', 'ret': 'ret', 'ijmp': 'jmp rax', 'icall': 'call rax', 'ud2': 'ud2', 'hlt': 'hlt'}
+INTEL = {'nop': 'nop', 'push_rax': 'push rax', 'pop_rax': 'pop rax', 'push_rbx': 'push rbx', 'pop_rbx': 'pop rbx', 'mov_rr': 'mov rbx, rax', 'xor': 'xor eax, eax', 'add': 'add rax, 1', 'lea_sym': 'lea rax, [rip + {t}]', 'mov_sym': 'mov rax, qword ptr [rip + {t}]', 'mark': 'mov eax, {imm}', 'jmp': 'jmp {t}', 'jne': 'jne {t}', 'call': 'call {t}', 'ret': 'ret', 'ijmp': 'jmp rax', 'icall': 'call rax', 'ud2': 'ud2', 'hlt': 'hlt', 'cmp_sym': 'cmp dword ptr [rip + {t}], 5', 'movi_sym': 'mov dword ptr [rip + {t}], 7'}
 for _k, _t in INTEL.items():
     X64[_k]["intel"] = _t
 
